@@ -75,6 +75,16 @@ class Layer:
                 "argv": strip(argv + [opt, path]), "stdout_run": [a[0], a[2].decode("latin1")[:600]],
                 "file_after_the_run": got.decode("latin1")[:1200], "status": b[0], "stderr": b[3].decode("latin1")[-300:]})
 
+    def spelled(self, what, argv, flags, stdin=None, files=None):
+        """pflag's boolean syntax: --flag=true is --flag, and --flag=false (=0, =F) is the flag left out."""
+        for fl in flags:
+            if fl in argv:
+                alt = [a if a != fl else fl + "=" + self.ctx.rng.choice(["true", "1", "T"]) for a in argv]
+                self.equal_runs("%s: %s spelled %s is not %s" % (what, fl, [a for a in alt if a.startswith(fl + "=")][0], fl), argv, alt, stdin_a=stdin, stdin_b=stdin, files=files)
+            else:
+                val = self.ctx.rng.choice(["false", "0", "F"])
+                self.equal_runs("%s: %s=%s is not the same as leaving %s out" % (what, fl, val, fl), argv, argv + [fl + "=" + val], stdin_a=stdin, stdin_b=stdin, files=files)
+
     def equal_runs(self, what, argv_a, argv_b, stdin_a=None, stdin_b=None, files=None):
         """two invocations that must behave alike (same class, same bytes)."""
         if self.failed:
@@ -111,6 +121,7 @@ def snps_layer(ctx, n=2):
                 L.same("snps --aggregate --threshold %r" % thr, ["snps", "-r", rp, "-q", ap, "--aggregate", "--threshold", repr(thr)] + hg,
                        dict(base, aggregate=True, threshold=thr), files=[rp, ap])
                 L.to_existing_file("snps", ["snps", "-r", rp, "-q", ap] + hg)
+                L.spelled("snps", ["snps", "-r", rp, "-q", ap] + hg, ["--hard-gaps", "--aggregate"], files=[rp, ap])
                 op = L.W("out%d.csv" % k, b"")
                 L.equal_runs("snps -o FILE then the file's content vs stdout", ["snps", "-r", rp, "-q", ap] + hg, ["snps", "-r", rp, "-q", ap] + hg, files=[rp, ap])
                 r = cm.run_binary(L.binp, ["snps", "-r", rp, "-q", ap, "-o", op] + hg)
@@ -163,6 +174,7 @@ def updown_layer(ctx, which, n=2):
             L.same("updown topranking (fasta/fasta)", ["updown", "topranking", "-r", rp, "-q", qp, "-t", tp] + flags, base, files=[rp, qp, tp])
             if k == 0:
                 L.to_existing_file("updown topranking", ["updown", "topranking", "-r", rp, "-q", qp, "-t", tp] + flags)
+            L.spelled("updown topranking", ["updown", "topranking", "-r", rp, "-q", qp, "-t", tp] + flags, ["--table", "--no-fill"], files=[rp, qp, tp])
             if eol == "\n" and ign:
                 L.same("updown topranking --ignore FILE", ["updown", "topranking", "-r", rp, "-q", qp, "-t", tp, "--ignore", ip] + flags,
                        dict(base, ignore=ign), files=[rp, qp, tp, ip])
@@ -193,6 +205,8 @@ def variants_layer(ctx, n=2):
                     L.same("variants (%s)" % suffix, argv, base, files=[mp, ap])
                     if k == 0 and not append:
                         L.to_existing_file("variants", argv)
+                    if k == 0:
+                        L.spelled("variants", argv, ["--append-snps", "--aggregate"], files=[mp, ap])
                     thr = rng.choice([0.0, 0.5])
                     L.same("variants --aggregate (%s)" % suffix, argv + ["--aggregate", "--threshold", repr(thr)], dict(base, aggregate=True, threshold=thr), files=[mp, ap])
                     # the alignment on stdin: with -r (the reference is then the first record of the stream) and without
@@ -261,6 +275,8 @@ def sam_layer(ctx, which, n=2):
                     L.same("sam toMultiAlign", argv, base, files=[sp])
                     if k == 0 and not pad:
                         L.to_existing_file("sam toMultiAlign", argv, opt="--fasta-out")
+                    if k == 0:
+                        L.spelled("sam toMultiAlign", argv, ["--pad"], files=[sp])
                     L.same("sam toMultiAlign, SAM on stdin", argv[:2] + argv[4:], base, stdin=samb, files=[sp])
             elif which == "topa":
                 # -o stdout: every pair, in input order, whatever the number of workers (a dozen queries, repeated runs)
@@ -272,6 +288,9 @@ def sam_layer(ctx, which, n=2):
                 for rep in range(5):
                     L.equal_runs("sam toPairAlign -o stdout: 4 workers vs 1 worker", ["sam", "toPairAlign", "-s", mp_, "-r", rp, "-o", "stdout", "-t", "1"],
                                  ["sam", "toPairAlign", "-s", mp_, "-r", rp, "-o", "stdout", "-t", "4"], files=[mp_, rp])
+                if k == 0:
+                    for fl in ([], ["--omit-reference"], ["--skip-insertions"]):
+                        L.spelled("sam toPairAlign -o stdout", ["sam", "toPairAlign", "-s", sp, "-r", rp, "-o", "stdout"] + fl, ["--omit-reference", "--skip-insertions"], files=[sp, rp])
                 names = [b[0]["name"] for b in samgen.blocks_of(recs)]
                 files = [nm.replace("/", "_") + ".fasta" for nm in names]
                 for ci, (omit_ref, omit_ins) in enumerate(((False, False), (True, False), (False, True), (True, True))):
@@ -299,6 +318,8 @@ def sam_layer(ctx, which, n=2):
                     argv = ["sam", "variants", "-s", sp, "-r", rp, "-a", ap] + (["--append-snps"] if append else []) + win
                     L.same("sam variants (%s)" % suffix, argv, base, files=[sp, rp, ap])
                     L.same("sam variants --aggregate (%s)" % suffix, argv + ["--aggregate"], dict(base, aggregate=True, threshold=0.0), files=[sp, rp, ap])
+                    if k == 0:
+                        L.spelled("sam variants", argv, ["--append-snps", "--aggregate"], files=[sp, rp, ap])
         return L.runs
     finally:
         L.close()
